@@ -47,6 +47,8 @@ pub struct Cov {
     pub counters: BTreeMap<&'static str, u64>,
     pub distinct: HashSet<u64>,
     pub distinct_overflow: bool,
+    /// a second, small exact set for world-specific saturation measures (e.g. small-scope order types)
+    pub aux: HashSet<u64>,
     pub events: u64,
     pub executions: u64,
     pub discards: u64,
@@ -95,6 +97,7 @@ impl Cov {
             }
         }
         self.distinct_overflow |= other.distinct_overflow;
+        self.aux.extend(other.aux);
         self.events += other.events;
         self.executions += other.executions;
         self.discards += other.discards;
@@ -289,6 +292,8 @@ impl KnownFindings {
 pub struct RunConfig {
     pub tier: Tier,
     pub seed: u64,
+    /// runs explored are first_run..runs
+    pub first_run: u64,
     pub runs: u64,
     pub workers: usize,
     pub evidence_path: Option<String>,
@@ -319,7 +324,7 @@ pub fn verif_root() -> String {
 pub fn run_world<W: World>(world: Arc<W>, cfg: &RunConfig) -> RunReport {
     let t0 = Instant::now();
     let prop = world.prop();
-    let next = Arc::new(AtomicU64::new(0));
+    let next = Arc::new(AtomicU64::new(cfg.first_run));
     // Lowest run index at which a (non-known) violation has been found so far.
     let stop_at = Arc::new(AtomicU64::new(u64::MAX));
     let truncated = Arc::new(AtomicBool::new(false));
@@ -390,6 +395,7 @@ pub fn run_world<W: World>(world: Arc<W>, cfg: &RunConfig) -> RunReport {
         let tier = cfg.tier;
         let seed = cfg.seed;
         let runs = cfg.runs;
+        let first_run = cfg.first_run;
         let digest_only = cfg.digest_only;
         let max_wall = Duration::from_secs(cfg.max_wall_s);
         handles.push(
@@ -415,7 +421,7 @@ pub fn run_world<W: World>(world: Arc<W>, cfg: &RunConfig) -> RunReport {
                         prog.active.store(true, Ordering::Relaxed);
                         prog.tick();
                         let base = world.generate(&mut rng, tier);
-                        if i < 3 {
+                        if i < first_run + 3 {
                             samples.lock().unwrap().push((i, world.to_json(&base)));
                         }
                         let out = world.explore(&base, tier, &mut cov, prog);
